@@ -1,12 +1,24 @@
 (* Props/C16.v — property C16: observations after any mutation history equal
-   those of a freshly built object.  Only statements, `exact`, Print
+   those of a freshly built object.  Only statements, `exact`/`eapply`, Print
    Assumptions and non-vacuity Examples.
 
-   The model (Model/PathCache.v) mirrors the pinned svgpathtools/path.py.  It
-   VIOLATES the property in the ways listed under "_refuted"; the positive
-   theorems hold for every history, of any length, that avoids exactly those
-   operations ([safe_hist], a boolean predicate evaluated along the history;
-   [avoids] is a purely syntactic sufficient condition), hence "_partial". *)
+   The model (Model/PathCache.v) mirrors svgpathtools/path.py, with one boolean
+   of [fx : fixes] per repaired behaviour (fx_pinned = the pinned code; the
+   harness probes the implementation and instantiates the flags).
+   * For fx_pinned the model VIOLATES the property in the ways listed under
+     "_refuted" (closed witnesses).
+   * The "_partial" theorems hold for EVERY setting of the flags and every
+     history, of any length, that avoids exactly the operations whose defect is
+     not repaired ([safe_op]/[safe_hist], boolean, evaluated along the history
+     and depending on the flags; [avoids] is a syntactic sufficient condition),
+     under ONE tolerance t0.
+   * The "_repaired" theorems are the FULL statements for the repaired
+     variants: no exclusion of the setters, of slice assignment, of mixed
+     tolerances.  What they still assume is exactly what was left unrepaired:
+     inserted segments are fresh objects, a setter is not applied to an empty
+     path, and (for mixed tolerances through a CubicBezier) that reusing a cached
+     length is value-preserving — which the repaired `<=` test is not bit for
+     bit (finding cubic-cache-deeper-min-depth-reused). *)
 From Coq Require Import ZArith QArith Qcanon List Bool.
 From SVP Require Import Base.Num Model.PathCache Model.PathCacheExec
      Proofs.PathCache Proofs.PathCacheSeg Proofs.PathCacheRefute.
@@ -14,105 +26,181 @@ Import ListNotations.
 
 Section C16.
   Context {pt pay tol V : Type}.
+  Variable fx : fixes.
   Variable pt_eqb : pt -> pt -> bool.
   Variable pt_falsy : pt -> bool.
   Variable pay_eqb : pay -> pay -> bool.
   Variable tol_reuse : tol -> tol -> bool.
+  Variable tol_eqb : tol -> tol -> bool.
   Variable t_def : tol.
   Variable len_of : @sdata pt pay -> tol -> V.         (* uninterpreted segment length *)
   Variables vzero vone : V.
   Variables vadd vsub vdiv : V -> V -> V.
   Variables v_eqb v_geb : V -> V -> bool.
-  Variable tol_eqb : tol -> tol -> bool.
   Hypothesis pt_eqb_eq : forall a b, pt_eqb a b = true -> a = b.
   Hypothesis pay_eqb_eq : forall a b, pay_eqb a b = true -> a = b.
   Hypothesis tol_eqb_eq : forall a b, tol_eqb a b = true -> a = b.
 
   Notation seg := (@seg pt pay tol V).
   Notation state := (@state pt pay tol V).
-  Notation Inv := (Inv len_of vzero vadd vdiv v_eqb).
-  Notation step := (step pt_eqb pay_eqb).
-  Notation obs := (obs pt_eqb pt_falsy pay_eqb tol_reuse t_def len_of vzero vone vadd vsub vdiv v_eqb v_geb).
-  Notation run := (run pt_eqb pt_falsy pay_eqb tol_reuse t_def len_of vzero vone vadd vsub vdiv v_eqb v_geb).
-  Notation safe_q := (safe_q t_def tol_eqb).
-  Notation safe_hist := (safe_hist pt_eqb pt_falsy pay_eqb tol_reuse t_def len_of vzero vone vadd vsub vdiv v_eqb v_geb tol_eqb).
-  Notation safe_hist_ends := (safe_hist_ends pt_eqb pt_falsy pay_eqb tol_reuse t_def len_of vzero vone vadd vsub vdiv v_eqb v_geb).
-  Notation avoids := (avoids t_def tol_eqb).
+  Notation step := (step fx pt_eqb pay_eqb).
+  Notation obs := (obs fx pt_eqb pt_falsy pay_eqb tol_reuse tol_eqb t_def len_of vzero vone vadd vsub vdiv v_eqb v_geb).
+  Notation run := (run fx pt_eqb pt_falsy pay_eqb tol_reuse tol_eqb t_def len_of vzero vone vadd vsub vdiv v_eqb v_geb).
+  Notation seg_length := (seg_length fx pt_eqb pay_eqb tol_reuse tol_eqb len_of).
 
-  (* Path( *l ) of segments that carry no cache satisfies the invariant *)
-  Theorem C16_inv_init : forall t (l : list seg), forallb no_cache l = true -> Inv t (fresh l).
-  Proof. intros t l H. apply inv_fresh. apply (forallb_no_cache tol_reuse t_def len_of vzero vadd vsub vdiv v_eqb v_geb t l H). Qed.
+  (* ================= one tolerance t0, any flags ================= *)
+  Section OneTolerance.
+    Variable t0 : tol.
+    Notation Tb := (Tb_one tol_eqb t0).
+    Notation Inv := (Inv fx len_of vzero vadd vdiv v_eqb Tb).
+    Notation safe_op := (safe_op fx).
+    Notation safe_q := (safe_q t_def Tb).
+    Notation safe_hist := (safe_hist fx pt_eqb pt_falsy pay_eqb tol_reuse tol_eqb t_def len_of vzero vone vadd vsub vdiv v_eqb v_geb Tb).
+    Notation avoids := (avoids fx t_def Tb).
+    Let HR := reuse_ok_one tol_eqb tol_eqb_eq t0 tol_reuse len_of.
+    Let HS := single_one tol_eqb tol_eqb_eq t0.
 
-  (* every operation that does not trigger one of the defects keeps it *)
-  Theorem C16_inv_step_partial : forall t (s : state) o,
-      Inv t s -> safe_op s o = true -> Inv t (fst (step s o)).
-  Proof. intros; eapply inv_step; eassumption. Qed.
+    (* Path of segments that carry no cache satisfies the invariant *)
+    Theorem C16_inv_init : forall (l : list seg), forallb no_cache l = true -> Inv (fresh l).
+    Proof. intros l H. apply inv_fresh. eapply forallb_no_cache; eassumption. Qed.
 
-  (* queries (they fill caches) keep it too, as long as one tolerance is used *)
-  Theorem C16_inv_obs_partial : forall t (s : state) q,
-      Inv t s -> safe_q t q = true -> Inv t (fst (obs s q)) /\ sds (fst (obs s q)) = sds s.
-  Proof. intros; eapply inv_obs; eassumption. Qed.
+    (* every operation that does not trigger an UNREPAIRED defect keeps it *)
+    Theorem C16_inv_step_partial : forall (s : state) o,
+        Inv s -> safe_op s o = true -> Inv (fst (step s o)).
+    Proof. intros; eapply inv_step; eauto. Qed.
 
-  (* under the invariant every query is answered as by a new Path of fresh
-     segments with the current control data, and as by a new Path of the same
-     segment objects *)
-  Theorem C16_fresh_equiv_partial : forall t (s : state) q,
-      Inv t s -> safe_q t q = true ->
-      snd (obs s q) = snd (obs (fresh_of s) q) /\ snd (obs s q) = snd (obs (fresh_same s) q).
-  Proof.
-    intros t s q H S. split; [eapply fresh_equiv|eapply fresh_same_equiv]; eassumption.
-  Qed.
+    (* queries (they fill caches) keep it too *)
+    Theorem C16_inv_obs_partial : forall (s : state) q,
+        Inv s -> safe_q q = true -> Inv (fst (obs s q)) /\ sds (fst (obs s q)) = sds s.
+    Proof. intros; eapply inv_obs; eauto. Qed.
 
-  (* histories of any length *)
-  Theorem C16_reachable_partial : forall t evs (s : state),
-      Inv t s -> safe_hist t s evs = true -> Inv t (run s evs).
-  Proof. intros; eapply reachable; eassumption. Qed.
-  Theorem C16_history_partial : forall t (l : list seg) evs q,
-      forallb no_cache l = true -> safe_hist t (fresh l) evs = true -> safe_q t q = true ->
-      snd (obs (run (fresh l) evs) q) = snd (obs (fresh_of (run (fresh l) evs)) q).
-  Proof. intros; eapply history_fresh_equiv; eassumption. Qed.
-  (* the same under the syntactic condition: no start/end setter, no
-     `path[a:b] = []`, inserted segments fresh, a single tolerance *)
-  Theorem C16_history_syntactic_partial : forall t (l : list seg) evs q,
-      forallb no_cache l = true -> forallb (avoids t) evs = true -> safe_q t q = true ->
-      snd (obs (run (fresh l) evs) q) = snd (obs (fresh_of (run (fresh l) evs)) q).
-  Proof. intros; eapply history_fresh_equiv_syntactic; eassumption. Qed.
+    (* under the invariant every query is answered as by a new Path of fresh
+       segments with the current control data, and as by a new Path of the same
+       segment objects *)
+    Theorem C16_fresh_equiv_partial : forall (s : state) q,
+        Inv s -> safe_q q = true ->
+        snd (obs s q) = snd (obs (fresh_of s) q) /\ snd (obs s q) = snd (obs (fresh_same s) q).
+    Proof. intros s q H S. split; [eapply fresh_equiv|eapply fresh_same_equiv]; eauto. Qed.
+
+    (* histories of any length *)
+    Theorem C16_reachable_partial : forall evs (s : state),
+        Inv s -> safe_hist s evs = true -> Inv (run s evs).
+    Proof. intros; eapply reachable; eauto. Qed.
+    Theorem C16_history_partial : forall (l : list seg) evs q,
+        forallb no_cache l = true -> safe_hist (fresh l) evs = true -> safe_q q = true ->
+        snd (obs (run (fresh l) evs) q) = snd (obs (fresh_of (run (fresh l) evs)) q).
+    Proof. intros; eapply history_fresh_equiv; eauto. Qed.
+    (* the same under the syntactic condition: no start/end setter, no
+       `path[a:b] = []` (unless repaired), inserted segments fresh *)
+    Theorem C16_history_syntactic_partial : forall (l : list seg) evs q,
+        forallb no_cache l = true -> forallb avoids evs = true -> safe_q q = true ->
+        snd (obs (run (fresh l) evs) q) = snd (obs (fresh_of (run (fresh l) evs)) q).
+    Proof. intros; eapply history_fresh_equiv_syntactic; eauto. Qed.
+
+    (* FULL for the repaired setters: allowed whatever is cached *)
+    Theorem C16_setter_step_repaired : fx_setter fx = true ->
+        forall (s : state) z, Inv s -> segs s <> [] ->
+        Inv (fst (step s (SetStart z))) /\ Inv (fst (step s (SetEnd z))).
+    Proof. intros; eapply inv_setter_repaired; eauto. Qed.
+    (* FULL for the repaired slice assignment: any slice, any list, also emptying the path *)
+    Theorem C16_setslice_step_repaired : fx_slice fx = true ->
+        forall (s : state) a b gs, Inv s -> forallb no_cache gs = true -> Inv (fst (step s (SetSlice a b gs))).
+    Proof. intros; eapply inv_setslice_repaired; eauto. Qed.
+    (* segments: control points reassigned in any way, then length at the tolerance *)
+    Theorem C16_segment_fresh_partial : forall (g : seg) f t,
+        SegOK len_of Tb g -> Tb t = true ->
+        snd (seg_length (reassign f g) t) = snd (seg_length (fresh_seg (f (sd g))) t).
+    Proof.
+      intros g f t H Tt.
+      exact (segment_fresh fx pt_eqb pay_eqb tol_reuse tol_eqb len_of pt_eqb_eq pay_eqb_eq tol_eqb_eq Tb HR
+                           (or_intror HS) t (reassign f g) H Tt).
+    Qed.
+  End OneTolerance.
+
+  (* ===== repaired setters, slice assignment, _calc_lengths, arc cache: FULL ===== *)
+  Section Repaired.
+    Hypothesis F_setter : fx_setter fx = true.
+    Hypothesis F_slice : fx_slice fx = true.
+    Hypothesis F_calc : fx_calc fx = true.
+    Hypothesis F_arc : fx_arc fx = true.
+    (* reusing a cached cubic length does not change the value: true of an exact
+       test; the repaired `<=` test returns a more accurate value instead *)
+    Hypothesis reuse_sound : forall c t d, tol_reuse c t = true -> len_of d c = len_of d t.
+    Notation Tb := (@Tb_any tol).
+    Notation Inv := (Inv fx len_of vzero vadd vdiv v_eqb Tb).
+    Notation safe_hist_repaired := (safe_hist_repaired fx pt_eqb pt_falsy pay_eqb tol_reuse tol_eqb t_def len_of vzero vone vadd vsub vdiv v_eqb v_geb Tb).
+    Let HR : forall c t d, Tb c = true -> Tb t = true -> tol_reuse c t = true -> len_of d c = len_of d t :=
+      fun c t d _ _ => reuse_sound c t d.
+
+    Theorem C16_inv_step_repaired : forall (s : state) o,
+        Inv s -> safe_op_repaired s o = true -> Inv (fst (step s o)).
+    Proof. intros; eapply inv_step; eauto. eapply safe_op_repaired_safe; eauto. Qed.
+    (* every query, with any tolerance *)
+    Theorem C16_inv_obs_repaired : forall (s : state) q,
+        Inv s -> Inv (fst (obs s q)) /\ sds (fst (obs s q)) = sds s.
+    Proof. intros s q H; eapply inv_obs; eauto. destruct q; reflexivity. Qed.
+    Theorem C16_fresh_equiv_repaired : forall (s : state) q,
+        Inv s -> snd (obs s q) = snd (obs (fresh_of s) q) /\ snd (obs s q) = snd (obs (fresh_same s) q).
+    Proof.
+      intros s q H. assert (S : safe_q t_def Tb q = true) by (destruct q; reflexivity).
+      split; [eapply fresh_equiv|eapply fresh_same_equiv]; eauto.
+    Qed.
+    (* histories of any length with setters, slice assignments and any mix of
+       tolerances; only restrictions: inserted segments are fresh objects and a
+       setter is not applied to an empty path (not repaired) *)
+    Theorem C16_history_repaired : forall (l : list seg) evs q,
+        forallb no_cache l = true -> safe_hist_repaired (fresh l) evs = true ->
+        snd (obs (run (fresh l) evs) q) = snd (obs (fresh_of (run (fresh l) evs)) q).
+    Proof.
+      intros l evs q A B. assert (S : safe_q t_def Tb q = true) by (destruct q; reflexivity).
+      eapply history_fresh_equiv_repaired; eauto.
+    Qed.
+  End Repaired.
 
   (* start / end / len / == / hash / d / bbox need less: they stay
-     fresh-equivalent through the setters, through mixed tolerances and through
-     cached segments; only `path[a:b] = []` emptying the path and a setter on an
-     empty path are excluded *)
+     fresh-equivalent through the setters (repaired or not), through mixed
+     tolerances and through cached segments; only (unrepaired) `path[a:b] = []`
+     emptying the path and a setter on an empty path are excluded *)
+  Notation InvEnds := (InvEnds fx).
+  Notation safe_hist_ends := (safe_hist_ends fx pt_eqb pt_falsy pay_eqb tol_reuse tol_eqb t_def len_of vzero vone vadd vsub vdiv v_eqb v_geb).
   Theorem C16_ends_reachable_partial : forall evs (s : state),
       InvEnds s -> safe_hist_ends s evs = true -> InvEnds (run s evs).
   Proof. intros; eapply ends_reachable; eassumption. Qed.
   Theorem C16_ends_fresh_equiv_partial : forall (s : state) q,
       InvEnds s -> ends_q q = true -> snd (obs s q) = snd (obs (fresh_of s) q).
   Proof. intros; eapply ends_fresh_equiv; eassumption. Qed.
+  (* repaired __hash__: a parsed (closed) path hashes like the constructed one *)
+  Theorem C16_hash_repaired : fx_hash fx = true ->
+      forall (l : list seg) c, snd (obs (fresh_closed l c) QHash) = snd (obs (fresh l) QHash).
+  Proof. intros; eapply hash_repaired; eassumption. Qed.
 
-  (* segments: control points reassigned in any way, then length at the
-     tolerance the cache is coherent for = what a fresh segment answers *)
-  Theorem C16_segment_fresh_partial : forall t (g : seg) f,
-      SegOK len_of t g ->
-      snd (seg_length pt_eqb pay_eqb tol_reuse len_of (reassign f g) t)
-      = snd (seg_length pt_eqb pay_eqb tol_reuse len_of (fresh_seg (f (sd g))) t).
-  Proof.
-    intros t g f H. apply (segment_fresh pt_eqb pay_eqb tol_reuse len_of pt_eqb_eq pay_eqb_eq t (reassign f g) H).
-  Qed.
+  (* segments *)
   Theorem C16_line_quad_fresh : forall (g : seg) t, skind (sd g) = KLine \/ skind (sd g) = KQuad ->
-      seg_length pt_eqb pay_eqb tol_reuse len_of g t = (g, len_of (sd g) t).
+      seg_length g t = (g, len_of (sd g) t).
   Proof. intros; eapply line_quad_fresh; eassumption. Qed.
   Theorem C16_cubic_fresh_partial :
       (forall c t d, tol_reuse c t = true -> len_of d c = len_of d t) ->
       forall f (g : seg) t, SegOwn len_of g -> skind (f (sd g)) = KCubic ->
-      snd (seg_length pt_eqb pay_eqb tol_reuse len_of (reassign f g) t)
-      = snd (seg_length pt_eqb pay_eqb tol_reuse len_of (fresh_seg (f (sd g))) t).
+      snd (seg_length (reassign f g) t) = snd (seg_length (fresh_seg (f (sd g))) t).
   Proof. intros; eapply cubic_fresh_if_reuse_sound; eassumption. Qed.
+  (* FULL for the repaired arc cache: any tolerances, any reassignment *)
+  Theorem C16_arc_fresh_repaired : fx_arc fx = true ->
+      forall f (g : seg) t, SegOwn len_of g -> skind (f (sd g)) = KArc ->
+      snd (seg_length (reassign f g) t) = snd (seg_length (fresh_seg (f (sd g))) t).
+  Proof. intros; eapply arc_fresh_repaired; eassumption. Qed.
   Theorem C16_reversed_coherent_partial : forall rev_data v_truthy,
       (forall d t, len_of (rev_data d) t = len_of d t) ->
       forall g : seg, SegOwn len_of g -> (forall c, scache g = Some c -> ckey c = sd g) ->
-      SegOwn len_of (fst (seg_reversed rev_data v_truthy g))
-      /\ SegOwn len_of (snd (seg_reversed rev_data v_truthy g)).
+      SegOwn len_of (fst (seg_reversed fx pt_eqb pay_eqb rev_data v_truthy g))
+      /\ SegOwn len_of (snd (seg_reversed fx pt_eqb pay_eqb rev_data v_truthy g)).
   Proof. intros; eapply reversed_coherent_partial; eassumption. Qed.
+  (* repaired reversed(): no condition on the cache; the original is untouched *)
+  Theorem C16_reversed_coherent_repaired : fx_rev fx = true -> forall rev_data v_truthy,
+      (forall d t, len_of (rev_data d) t = len_of d t) ->
+      forall g : seg, SegOwn len_of g ->
+      fst (seg_reversed fx pt_eqb pay_eqb rev_data v_truthy g) = g
+      /\ SegOwn len_of (snd (seg_reversed fx pt_eqb pay_eqb rev_data v_truthy g)).
+  Proof. intros; eapply reversed_coherent_repaired; eassumption. Qed.
 End C16.
 
 (* equal => equal hash, for the four segment classes (every hashed field is
@@ -143,72 +231,130 @@ Theorem C16_eq_hash_path_refuted :
                    /\ path_hash zt (line_hash (fun z => z) zt) zb a <> path_hash zt (line_hash (fun z => z) zt) zb b.
 Proof. exact path_eq_hash_refuted. Qed.
 
-(* ---- refutations: the faithful model of the pinned code, closed witnesses *)
+Theorem C16_eq_hash_path_repaired : forall {H S} (thash : list H -> H) seg_eq (seg_hash : S -> H) bhash,
+    (forall a b, seg_eq a b = true -> seg_hash a = seg_hash b) ->
+    forall a b, path_eq seg_eq a b = true ->
+                path_hash_repaired thash seg_hash bhash a = path_hash_repaired thash seg_hash bhash b.
+Proof. intros; eapply path_eq_hash_repaired; eassumption. Qed.
+
+(* ---- refutations: the faithful model of the PINNED code (fx_pinned), closed
+   witnesses; and, for each repaired defect, the same history under the repair flag *)
 Import Sym.
 Theorem C16_start_setter_refuted :
-  differs_same [L1; C1] [EQ (QLength t_default); EOp (SetStart z9)] (QLength t_default).
+  differs_same fx_pinned [L1; C1] [EQ (QLength t_default); EOp (SetStart z9)] (QLength t_default).
 Proof. exact start_setter_stale_length. Qed.
 Theorem C16_end_setter_refuted :
-  differs_same [L1; C1] [EQ (QLength t_default); EOp (SetEnd z9)] (QLength t_default).
+  differs_same fx_pinned [L1; C1] [EQ (QLength t_default); EOp (SetEnd z9)] (QLength t_default).
 Proof. exact end_setter_stale_length. Qed.
+Example C16_setters_repaired_witness :
+  agrees fx_s [L1; C1] [EQ (QLength t_default); EOp (SetStart z9)] (QLength t_default)
+  /\ agrees fx_s [L1; C1] [EQ (QLength t_default); EOp (SetEnd z9)] (QLength t_default).
+Proof. exact setters_repaired. Qed.
 Theorem C16_calc_lengths_tolerance_refuted :
-  differs [L1; C1] [EQ (QLength loose)] (QLength t_default)
-  /\ differs_same [L1; C1] [EQ (QLength t_default)] (QLength loose).
+  differs fx_pinned [L1; C1] [EQ (QLength loose)] (QLength t_default)
+  /\ differs_same fx_pinned [L1; C1] [EQ (QLength t_default)] (QLength loose).
 Proof. exact (conj calc_lengths_ignores_tolerance calc_lengths_ignores_tolerance_tight_first). Qed.
+Example C16_calc_lengths_repaired_witness :
+  agrees_same fx_c [L1; C1] [EQ (QLength t_default)] (QLength loose)
+  /\ agrees fx_c [L1; Q1] [EQ (QLength loose)] (QLength t_default).
+Proof. exact calc_lengths_repaired. Qed.
 Theorem C16_cubic_error_test_refuted :
-  snd (seg_length (fst (seg_length C1 loose)) t_default) = SLen (sd C1) loose
-  /\ differs [C1] [EQ (QLength loose); EOp (Append L1)] (QLength t_default).
+  snd (seg_length fx_pinned (fst (seg_length fx_pinned C1 loose)) t_default) = SLen (sd C1) loose
+  /\ differs fx_pinned [C1] [EQ (QLength loose); EOp (Append L1)] (QLength t_default).
 Proof. exact (conj cubic_cache_error_test_inverted_seg cubic_cache_error_test_inverted). Qed.
+Example C16_cubic_repaired_witness :
+  snd (seg_length fx_q (fst (seg_length fx_q C1 loose)) t_default) = SLen (sd C1) t_default
+  /\ agrees fx_q [C1] [EQ (QLength loose); EOp (Append L1)] (QLength t_default).
+Proof. exact cubic_repaired. Qed.
+(* not repaired: a value computed with stricter arguments is reused (pinned: deeper
+   min_depth; repaired test: also a tighter error) *)
 Theorem C16_cubic_min_depth_refuted :
-  snd (seg_length (fst (seg_length C1 deep)) t_default) = SLen (sd C1) deep.
-Proof. exact cubic_cache_deeper_min_depth_reused. Qed.
+  snd (seg_length fx_pinned (fst (seg_length fx_pinned C1 deep)) t_default) = SLen (sd C1) deep
+  /\ snd (seg_length fx_q (fst (seg_length fx_q C1 deep)) t_default) = SLen (sd C1) deep
+  /\ snd (seg_length fx_q (fst (seg_length fx_q C1 t_default)) loose) = SLen (sd C1) t_default.
+Proof. exact (conj cubic_cache_deeper_min_depth_reused cubic_repaired_reuses_stricter). Qed.
 Theorem C16_arc_tolerance_refuted :
-  (snd (seg_length (fst (seg_length A1 loose)) t_default) = SLen (sd A1) loose
-   /\ snd (seg_length (fst (seg_length A1 t_default)) loose) = SLen (sd A1) t_default)
-  /\ differs [A1] [EQ (QLength loose); EOp (Append L1)] (QLength t_default).
+  (snd (seg_length fx_pinned (fst (seg_length fx_pinned A1 loose)) t_default) = SLen (sd A1) loose
+   /\ snd (seg_length fx_pinned (fst (seg_length fx_pinned A1 t_default)) loose) = SLen (sd A1) t_default)
+  /\ differs fx_pinned [A1] [EQ (QLength loose); EOp (Append L1)] (QLength t_default).
 Proof. exact (conj arc_cache_ignores_tolerance_seg arc_cache_ignores_tolerance). Qed.
+Example C16_arc_repaired_witness :
+  (snd (seg_length fx_a (fst (seg_length fx_a A1 loose)) t_default) = SLen (sd A1) t_default
+   /\ snd (seg_length fx_a (fst (seg_length fx_a A1 t_default)) loose) = SLen (sd A1) loose)
+  /\ agrees fx_a [A1] [EQ (QLength loose); EOp (Append L1)] (QLength t_default).
+Proof. exact arc_repaired. Qed.
 Theorem C16_slice_assign_empty_refuted :
-  snd (step (fresh [L1; C1]) (SetSlice None None [])) = RErr IndexError
-  /\ segs (fst (step (fresh [L1; C1]) (SetSlice None None []))) = []
-  /\ differs [L1; C1] [EOp (SetSlice None None [])] QEnd.
+  snd (step fx_pinned (fresh [L1; C1]) (SetSlice None None [])) = RErr IndexError
+  /\ segs (fst (step fx_pinned (fresh [L1; C1]) (SetSlice None None []))) = []
+  /\ differs fx_pinned [L1; C1] [EOp (SetSlice None None [])] QEnd.
 Proof. exact slice_assign_empty_raises. Qed.
-Theorem C16_setter_on_empty_refuted : differs [] [EOp (SetStart z9)] QStart.
+Example C16_slice_assign_repaired_witness :
+  snd (step fx_l (fresh [L1; C1]) (SetSlice None None [])) = ROk
+  /\ agrees fx_l [L1; C1] [EOp (SetSlice None None [])] QEnd.
+Proof. exact slice_assign_repaired. Qed.
+(* not repaired: holds for every variant *)
+Theorem C16_setter_on_empty_refuted :
+  differs fx_pinned [] [EOp (SetStart z9)] QStart /\ differs fx_all [] [EOp (SetStart z9)] QStart.
 Proof. exact setter_on_empty_path. Qed.
 Theorem C16_path_eq_hash_refuted :
   let a := fresh [L1; L2] in
   let b := fresh_closed [L1; L2] true in
-  ask a (QEq (sds b)) = VBool true /\ ask a QHash <> ask b QHash.
+  ask fx_pinned a (QEq (sds b)) = VBool true /\ ask fx_pinned a QHash <> ask fx_pinned b QHash.
 Proof. exact path_eq_hash_closed. Qed.
+Example C16_path_eq_hash_repaired_witness :
+  ask fx_h (fresh [L1; L2]) QHash = ask fx_h (fresh_closed [L1; L2] true) QHash.
+Proof. exact path_eq_hash_repaired_witness. Qed.
+(* not repaired (ulp-level): the reversed copy answers with the original's value *)
 Theorem C16_reversed_copy_refuted :
-  let g := fst (seg_length C1 t_default) in
-  snd (seg_length (snd (reversed g)) t_default) = SLen (sd C1) t_default
-  /\ snd (seg_length (clear_cache (snd (reversed g))) t_default) = SLen (rev_data (sd C1)) t_default.
+  let g := fst (seg_length fx_pinned C1 t_default) in
+  snd (seg_length fx_pinned (snd (reversed fx_pinned g)) t_default) = SLen (sd C1) t_default
+  /\ snd (seg_length fx_pinned (clear_cache (snd (reversed fx_pinned g))) t_default) = SLen (rev_data (sd C1)) t_default.
 Proof. exact reversed_copy_inherits_cache. Qed.
 Theorem C16_reversed_stale_refuted :
-  let g := with_start (fst (seg_length C1 t_default)) z9 in
-  snd (seg_length (snd (reversed g)) t_default) = SLen (sd C1) t_default
-  /\ snd (seg_length (clear_cache (snd (reversed g))) t_default) = SLen (rev_data (sd g)) t_default
+  let g := with_start (fst (seg_length fx_pinned C1 t_default)) z9 in
+  snd (seg_length fx_pinned (snd (reversed fx_pinned g)) t_default) = SLen (sd C1) t_default
+  /\ snd (seg_length fx_pinned (clear_cache (snd (reversed fx_pinned g))) t_default) = SLen (rev_data (sd g)) t_default
   /\ sd g <> sd C1.
 Proof. exact reversed_rekeys_stale_length. Qed.
+Example C16_reversed_repaired_witness :
+  let g := with_start (fst (seg_length fx_r C1 t_default)) z9 in
+  snd (seg_length fx_r (snd (reversed fx_r g)) t_default) = SLen (rev_data (sd g)) t_default
+  /\ fst (reversed fx_r g) = g.
+Proof. exact reversed_repaired. Qed.
 
-(* ---- non-vacuity: the positive theorem applies to a history that uses every
-   kind of operation (setters included, while nothing is cached) *)
+(* ---- non-vacuity: the positive theorems apply to histories that use every
+   kind of operation *)
 Example C16_demo_applies :
-  forall q, safe_q t_default tol_eqb t_default q = true ->
-  ask (run (fresh [L1; C1]) demo) q = ask (fresh_of (run (fresh [L1; C1]) demo)) q.
+  forall q, safe_q t_default (Tb_one tol_eqb t_default) q = true ->
+  ask fx_pinned (run fx_pinned (fresh [L1; C1]) demo) q
+  = ask fx_pinned (fresh_of (run fx_pinned (fresh [L1; C1]) demo)) q.
 Proof.
-  intros q Hq.
-  unfold ask, run, obs. eapply C16_history_partial;
+  intros q Hq. unfold ask, run, obs. eapply C16_history_partial;
     [exact P_eqb_eq|exact Pay_eqb_eq|exact tol_eqb_eq|reflexivity|exact demo_safe|exact Hq].
 Qed.
 Example C16_demo_nontrivial :
-  length (segs (run (fresh [L1; C1]) demo)) = 1%nat
-  /\ ask (run (fresh [L1; C1]) demo) (QLength t_default)
-     = ask (fresh_of (run (fresh [L1; C1]) demo)) (QLength t_default).
+  length (segs (run fx_pinned (fresh [L1; C1]) demo)) = 1%nat
+  /\ ask fx_pinned (run fx_pinned (fresh [L1; C1]) demo) (QLength t_default)
+     = ask fx_pinned (fresh_of (run fx_pinned (fresh [L1; C1]) demo)) (QLength t_default).
 Proof. exact demo_trace_nontrivial. Qed.
+(* all repairs on, exact cubic reuse test: setters while the length is cached,
+   `path[:] = []`, three tolerances, a cubic and an arc in the path — every query agrees *)
+Example C16_demo_repaired_applies :
+  forall q,
+  snd (PathCache.obs fx_all P_eqb P_falsy Pay_eqb tol_eqb tol_eqb t_default SLen SZero SOne SAdd SSub SDiv sym_eqb sym_geb
+         (PathCache.run fx_all P_eqb P_falsy Pay_eqb tol_eqb tol_eqb t_default SLen SZero SOne SAdd SSub SDiv sym_eqb sym_geb
+            (fresh [L1; C1]) demo_all_c) q)
+  = snd (PathCache.obs fx_all P_eqb P_falsy Pay_eqb tol_eqb tol_eqb t_default SLen SZero SOne SAdd SSub SDiv sym_eqb sym_geb
+         (fresh_of (PathCache.run fx_all P_eqb P_falsy Pay_eqb tol_eqb tol_eqb t_default SLen SZero SOne SAdd SSub SDiv sym_eqb sym_geb
+            (fresh [L1; C1]) demo_all_c)) q).
+Proof.
+  intros q. eapply C16_history_repaired;
+    [exact P_eqb_eq|exact Pay_eqb_eq|exact tol_eqb_eq|reflexivity|reflexivity|reflexivity|reflexivity
+    |intros c t d E; apply tol_eqb_eq in E; rewrite E; reflexivity|reflexivity|exact demo_all_c_safe].
+Qed.
 Example C16_reverse_is_rev :
-  map sd (segs (fst (step (fresh [L1; C1; A1; Q1; L2]) Reverse))) = rev (map sd [L1; C1; A1; Q1; L2])
-  /\ map sd (segs (fst (step (fresh [L1; C1; A1; Q1]) Reverse))) = rev (map sd [L1; C1; A1; Q1]).
+  map sd (segs (fst (step fx_pinned (fresh [L1; C1; A1; Q1; L2]) Reverse))) = rev (map sd [L1; C1; A1; Q1; L2])
+  /\ map sd (segs (fst (step fx_pinned (fresh [L1; C1; A1; Q1]) Reverse))) = rev (map sd [L1; C1; A1; Q1]).
 Proof. exact reverse_is_rev. Qed.
 
 Print Assumptions C16_inv_init.
@@ -218,27 +364,47 @@ Print Assumptions C16_fresh_equiv_partial.
 Print Assumptions C16_reachable_partial.
 Print Assumptions C16_history_partial.
 Print Assumptions C16_history_syntactic_partial.
+Print Assumptions C16_setter_step_repaired.
+Print Assumptions C16_setslice_step_repaired.
+Print Assumptions C16_segment_fresh_partial.
+Print Assumptions C16_inv_step_repaired.
+Print Assumptions C16_inv_obs_repaired.
+Print Assumptions C16_fresh_equiv_repaired.
+Print Assumptions C16_history_repaired.
 Print Assumptions C16_ends_reachable_partial.
 Print Assumptions C16_ends_fresh_equiv_partial.
-Print Assumptions C16_segment_fresh_partial.
+Print Assumptions C16_hash_repaired.
 Print Assumptions C16_line_quad_fresh.
 Print Assumptions C16_cubic_fresh_partial.
+Print Assumptions C16_arc_fresh_repaired.
 Print Assumptions C16_reversed_coherent_partial.
+Print Assumptions C16_reversed_coherent_repaired.
 Print Assumptions C16_eq_hash_line.
 Print Assumptions C16_eq_hash_quad.
 Print Assumptions C16_eq_hash_cubic.
 Print Assumptions C16_eq_hash_arc.
 Print Assumptions C16_eq_hash_path_partial.
 Print Assumptions C16_eq_hash_path_refuted.
+Print Assumptions C16_eq_hash_path_repaired.
 Print Assumptions C16_start_setter_refuted.
 Print Assumptions C16_end_setter_refuted.
+Print Assumptions C16_setters_repaired_witness.
 Print Assumptions C16_calc_lengths_tolerance_refuted.
+Print Assumptions C16_calc_lengths_repaired_witness.
 Print Assumptions C16_cubic_error_test_refuted.
+Print Assumptions C16_cubic_repaired_witness.
 Print Assumptions C16_cubic_min_depth_refuted.
 Print Assumptions C16_arc_tolerance_refuted.
+Print Assumptions C16_arc_repaired_witness.
 Print Assumptions C16_slice_assign_empty_refuted.
+Print Assumptions C16_slice_assign_repaired_witness.
 Print Assumptions C16_setter_on_empty_refuted.
 Print Assumptions C16_path_eq_hash_refuted.
+Print Assumptions C16_path_eq_hash_repaired_witness.
 Print Assumptions C16_reversed_copy_refuted.
 Print Assumptions C16_reversed_stale_refuted.
+Print Assumptions C16_reversed_repaired_witness.
 Print Assumptions C16_demo_applies.
+Print Assumptions C16_demo_nontrivial.
+Print Assumptions C16_demo_repaired_applies.
+Print Assumptions C16_reverse_is_rev.
